@@ -47,6 +47,12 @@ Proved here - the lemmas the accept / reject simulation rests on:
   the patcher is shown not to depend on ids (`applyUniq_equiv`: every action accepted on a tree is accepted on any
   one-to-one renaming of it, with related results), and the simulation is carried by the relation "the accepted view is
   the patcher's tree with its ids renamed one-to-one" (`C09_accept_simulation`).
+* the same for the scripts of the differ (`Proofs/Along.lean`, `Names.lean`, `DifferFmt.lean`): a generic "along the
+  run" predicate is threaded through the generator like `Steps`; every path of a differ script is stepwise unique on the
+  tree it is resolved on, a right document without comments yields no comment action, new texts are the right
+  document's, an added attribute name is an attribute name of the right document and every other attribute named is
+  one of the addressed node, a move accepted by the strict semantics does not go into its own subtree - so
+  `C09_differ_script` needs only the cleanliness of the two documents and the engine interface.
 Not proved: the attribute annotations in the rejected view, the accepted view after `finalize` (wrappers as elements; text level only:
 `C09_text_update_accept`), the composition at tree level (accept (format L S) = patch L S, reject (format L S) = L) - it
 is decided on every run by the projection oracles on the real output; and it is *false* of
@@ -59,6 +65,7 @@ import XmlDiffModel.Proofs.Acc4
 import XmlDiffModel.Proofs.Changes
 import XmlDiffModel.Proofs.Rej2
 import XmlDiffModel.Proofs.Acc5
+import XmlDiffModel.Proofs.DifferFmt
 
 namespace XmlDiffModel
 open Tree
@@ -267,6 +274,27 @@ theorem C09_accept_simulation (qn : QName) (ft : List Str) (L : Tree) (nx : Nat)
   obtain ⟨s', h1, ⟨σ, r⟩, _⟩ := run_sim_moves qn script _ ⟨htok, hb, rfl⟩ L nx (simRel_init _ htok hclean) hst hpaths hor
     p' hp
   exact ⟨s', σ, h1, r.eq, r.inj⟩
+
+open Acc TextMark Along in
+/-- **The XML formatter on the script of the differ** (model of the whole pipeline, no text tags, no `use_replace`,
+tree before `finalize`): `L` clean (no `diff:` attributes, texts without private-use characters, never the empty
+string), every node of `R` an element with such texts and distinct attribute names outside the `diff:` namespace, `M`
+any good matching (what `match()` returns, C07).  If the generator produces `(script, final)` - `final` is the
+patched document, C01 - then every handler of the formatter accepts the script and the accepted view of the tree they
+leave is `final` with its node ids renamed one-to-one.  The only assumption left is about the text engine: each
+answer consumed spells the new text when accepted (`OracleOK`, C16). -/
+theorem C09_differ_script (qn : QName) (cfg : Cfg) (L R : Tree) (M : List (Nat × Nat)) (fresh : Nat)
+    (script : List Action) (final : Tree) (ft : List Str) (segs : List (List Seg)) (w : Bool)
+    (hclean : CleanT L) (hL : (Tree.ids L).Nodup) (hRn : (Tree.ids R).Nodup)
+    (hdisj : ∀ i ∈ Tree.ids L, i ∉ Tree.ids R)
+    (hfL : ∀ i ∈ Tree.ids L, i < fresh) (hfR : ∀ i ∈ Tree.ids R, i < fresh) (hM : Chw.GoodMatching L R M)
+    (hR : ∀ x ∈ Tree.bfs R, (keys x.payload.attrs).Nodup ∧ XClean (fun k => isDiffKey k = false) x)
+    (hor : OracleOK qn { tree := L, next := fresh, ph := phInit [] ft, segs := segs, useReplace := false, wsText := w }
+      script)
+    (h : scriptGen qn cfg L R M fresh = .ok (script, final)) :
+    ∃ s' σ, runFmt qn { tree := L, next := fresh, ph := phInit [] ft, segs := segs, useReplace := false, wsText := w }
+        script = .ok s' ∧ acc (cln accS) s'.tree = MapId.mapId σ final ∧ MapId.InjOn σ (Tree.ids final) :=
+  differ_script_formatted qn cfg L R M fresh script final ft segs w hclean hL hRn hdisj hfL hfR hM hR hor h
 
 /-- The conclusion of `C09_accept_simulation` on the concrete script with a move added: the accepted view has the
 payloads, in document order, of the patched tree. -/
